@@ -606,6 +606,11 @@ pub fn generate_with(prop: &str, o: &GenOpts, base_seed: u64, index: u64) -> Run
         } else {
             0
         },
+        finish: if rng.chance(20, 100) {
+            rng.range(1, 2) as u8
+        } else {
+            0
+        },
         tail: {
             // non-fused wrapped iterator (only with a hint that does not promise a length, and not
             // followed by into_seq_iter, whose result for a non-fused source is not specified)
@@ -790,6 +795,7 @@ pub fn generate_c16(base_seed: u64, index: u64, schedules_per_point: u64) -> Run
         panic: None,
         consume_nth: ((index / 7) % 3) as usize % 2,
         tail: 0,
+        finish: ((index / 11) % 3) as u8,
         sim,
     }
 }
